@@ -497,9 +497,10 @@ QUICK_ONLY = {
     },
     "C03": {
         "c01_find_by_line_fast": {"q_two", "q_blank_mid", "q_crlf_mix"},
-        "c03_fast_confirmed": {"q_two", "q_blank_mid", "q_crlf_mix", "q_nul"},
+        # (NUL-terminated shapes never take the fast line path: is_line_by_line_fast() is false for them)
+        "c03_fast_confirmed": {"q_two", "q_blank_mid", "q_crlf_mix"},
         "c03_fast_candidate_all": {"q_two", "q_blank_mid", "q_crlf_mix"},
-        "c03_fast_stop": {"q_two", "q_blank_mid", "q_crlf_mix"},
+        "c03_fast_stop": {"q_two", "q_blank_mid"},
         "c03_slice_stop": {"q_empty", "q_one", "q_one_unterm", "q_blank", "q_two", "q_blank_mid", "q_crlf_mix"},
         "c03_slice_ctx": {"q_empty", "q_one", "q_one_unterm", "q_blank", "q_two", "q_blank_mid", "q_blank_first", "q_blank_last", "q_crlf_mix", "q_crlf_blank", "q_nul", "q_four"},
         "c03_slice_passthru": {"q_empty", "q_one_unterm", "q_blank", "q_two", "q_blank_mid", "q_crlf_blank", "q_nul"},
@@ -592,7 +593,9 @@ def run_kani(group, ctx):
             lanes[key[2]].append(prepare(key, obls))
         both = bool(lanes[False]) and bool(lanes[True])
         J = ctx["jobs"]
-        lane_jobs = {False: (max(2, J - 5) if both else J), True: min(5, J)}
+        n_heavy = sum(len(g[2]) for g in lanes[True])
+        h_jobs = min(5, J, max(1, n_heavy))
+        lane_jobs = {False: (max(2, J - h_jobs) if both else J), True: h_jobs}
         done = []
         stop_guard = threading.Event()
 
